@@ -419,7 +419,11 @@ def apply(I, st, inst, node, nidx, callee, args, term, dty, line):
         a0 = args[0]
         p = ref_path(a0)
         if p is not None:
-            vp = canon_path(I, st, p)
+            lv = st.env.get(p)
+            if lv is not None and isinstance(lv, tuple) and lv and lv[0] in ("fld", "usernext", "call", "unwrap"):
+                vp = h(lv)
+            else:
+                vp = canon_path(I, st, p)
         elif isinstance(a0, Tree):
             vp = canon_path(I, st, a0.path)
         else:
